@@ -46,6 +46,48 @@ def mutants(every):
     return out
 
 
+CONSTS = {'0': ['1'], '1': ['0', '2'], '2': ['1', '4'], '3': ['2', '4'], '4': ['2', '8'], '8': ['4'], '16': ['8'], '255': ['256', '127'], '256': ['255', '512'], '512': ['256', '511'],
+          '127': ['128'], '128': ['127', '256'], '18': ['17'], '9': ['8', '10'], '80': ['84'], '84': ['80']}
+
+
+def mutants2(every):
+    """second operator set: statement deletion, guard removal, integer constants"""
+    out = []
+    k = 0
+    for fn in sorted(os.listdir(os.path.join(REPO, 'src'))):
+        if not fn.endswith('.cpp'):
+            continue
+        lines = open(os.path.join(REPO, 'src', fn)).read().split('\n')
+        for ln, line in enumerate(lines):
+            st = line.strip()
+            if not st or st.startswith('//') or st.startswith('#') or st.startswith('*') or 'std::cout' in line:
+                continue
+            code = line.split('//')[0].rstrip()
+            cands = []
+            ind = line[:len(line) - len(line.lstrip())]
+            # (a) delete an expression statement: call / assignment / increment on one line
+            if re.match(r'^\s*(\+\+|--)?[\w\.\[\]:>\-\(\)\*]+\s*(=|\+=|-=|\*=|/=)\s*[^=].*;$', code) and not re.match(r'^\s*(const |auto |size_t |int |float |double |bool |char |std::|ezc3d::\w+(::\w+)* &?\w+\s*=|unsigned )', code) \
+               or re.match(r'^\s*[\w\.:>\-\[\]\(\)]+\((.*)\);$', code) and not re.match(r'^\s*(return|throw|delete|const |std::\w+(<.*>)? \w+\()', code) \
+               or re.match(r'^\s*(\+\+|--)\w+;$', code) or re.match(r'^\s*\w+(\+\+|--);$', code):
+                cands.append((ind + ';', 'delete statement'))
+            # (b) disable a guard whose consequence (next line) is a throw / return / break / continue
+            nxt = lines[ln + 1].strip() if ln + 1 < len(lines) else ''
+            m = re.match(r'^(\s*(?:else )?if \()(.*)\)(\s*\{?)$', code)
+            if m and (nxt.startswith('throw') or nxt.startswith('return') or nxt.startswith('break') or nxt.startswith('continue')):
+                cands.append((m.group(1) + 'false && (' + m.group(2) + '))' + m.group(3), 'guard disabled'))
+            # (c) integer constants
+            if '"' not in code:
+                for m in re.finditer(r'(?<![\w\.])(\d+)(?![\w\.])', code):
+                    for rep in CONSTS.get(m.group(1), []):
+                        cands.append((code[:m.start()] + rep + code[m.end():], 'const %s -> %s' % (m.group(1), rep)))
+            for new, op in cands:
+                k += 1
+                if k % every:
+                    continue
+                out.append({'file': 'src/' + fn, 'line': ln + 1, 'old': line, 'new': new, 'op': op})
+    return out
+
+
 def work(args):
     idx, mut, wdir = args
     src = os.path.join(wdir, mut['file'])
@@ -100,17 +142,19 @@ def work(args):
 
 def main():
     a = sys.argv[1:]
-    jobs, every, outp = 8, 3, '/tmp/mutsweep.jsonl'
+    jobs, every, outp, gen = 8, 3, '/tmp/mutsweep.jsonl', mutants
     while a:
         if a[0] == '-j':
             jobs = int(a[1]); a = a[2:]
         elif a[0] == '--every':
             every = int(a[1]); a = a[2:]
+        elif a[0] == '--set2':
+            gen = mutants2; a = a[1:]
         elif a[0] == '--out':
             outp = a[1]; a = a[2:]
         else:
             a = a[1:]
-    muts = mutants(every)
+    muts = gen(every)
     print('%d mutants' % len(muts), flush=True)
     # one private copy (with its own build directory) per worker
     base = tempfile.mkdtemp(prefix='ezc3d-mutsweep-')
